@@ -1,5 +1,5 @@
 """Entry and validation discipline (C09, C03): R-ENTRY, R-HELPER, R-TRIM, R-ERRSINK, R-WHOCALLS."""
-from .core import Result
+from .core import Result, is_panic_callee
 
 ENTRY_METHODS = {
     "process_with_scratch": ("inplace", "get_inplace_scratch_len"),
@@ -760,7 +760,7 @@ def _is_error_fn(F, fid):
             return False
     for bi, t in b.calls():
         c = F.callee_of(t)
-        if c and "panicking" in c["p"] and t.get("t") is None:
+        if is_panic_callee(c) and t.get("t") is None:
             return True
     return False
 
@@ -778,7 +778,7 @@ def _panic_guards(F, b):
         if t["k"] == "call":
             c = F.callee_of(t)
             if t.get("t") is None:
-                return bool(c and "panicking" in c["p"])
+                return is_panic_callee(c)
             return diverges(t["t"], depth + 1)
         if t["k"] == "goto":
             return diverges(t["t"], depth + 1)
